@@ -139,6 +139,8 @@ def hist_configs(tier) -> list[dict]:
                "split": ["Amor", "Bourdin", "Miehe", "He", "AnisotStress"]}
     out = [dict(c, elemType="QUAD4") for c in deviations(factors, None)]
     out += [dict(c, elemType="TRI3") for c in deviations(factors, 1 if tier == "quick" else None)]
+    # a mesh with two element groups (triangles and quadrangles)
+    out += [dict(c, elemType="TRI3+QUAD4") for c in deviations(factors, 1 if tier == "quick" else None)]
     # the staggered scheme iterated to convergence (several damage/displacement iterations per step) instead of the default
     # single pass: quick = the default configuration and its single-factor deviations, thorough = the full product, on QUAD4
     out += [dict(c, elemType="QUAD4", tolConv=1e-2) for c in deviations(factors, 1 if tier == "quick" else None)]
@@ -754,7 +756,8 @@ def _run_eigen(case):
 def build_simu(case):
     from EasyFEA import Models, Simulations
 
-    mesh = Z.template_2d(case["elemType"], 3).build()
+    et = case["elemType"]
+    mesh = Z.template_2d(tuple(et.split("+")) if "+" in et else et, 3).build()
     material = Models.Elastic.Isotropic(2, E=100.0, v=0.3, planeStress=True, thickness=1.0)
     model = Models.PhaseField(material, case["split"], case["regu"], 1.0, 0.5, case["solver"])
     simu = Simulations.PhaseField(mesh, model)
